@@ -1,4 +1,5 @@
 import McpModel.Conn.MonEnd
+import McpModel.Conn.Render
 /-!
 # The bridge between the monitors of C01–C05 and the model (E1)
 
@@ -14,6 +15,11 @@ therefore always comes with a `D` (the implementation left the model) — the mo
 broken tie into the violated clause of the property (clause soundness: `Sound.lean`).
 -/
 namespace Conn
+
+/-- **The model's observation text is the rendering of the typed observation** in every reachable
+state (`observe` prints `panic` for panicked states, and no reachable state has panicked). -/
+theorem observe_reachable (ls : List Label) (s : St) (h : run {} ls = some s) : observe s = render (obsOf s) :=
+  observe_eq_render s (inv4_not_panicked (inv4_run ls inv4_init h))
 
 /-- **MonRel holds along every run.** The monitor state after the model's own observation trace is
 related to the model state reached. -/
@@ -89,5 +95,77 @@ theorem monEnd_accepts_quiescent_no_dup (ls : List Label) (s : St) (h : run {} l
       cases hq' : q.id.isSome <;> simp [hq'] at this ⊢
     rw [hnd r k hk hid] at hcall
     cases hcall
+
+/-! ## Monitor defects found while proving the bridge
+
+Two clauses of the untyped monitor were stricter than the model on schedules the harness does not
+generate (it cancels a caller's context only while the call is inside the transport Write or blocked
+in Await).  Both clauses could therefore fire on a behaviour the model allows; both were repaired in
+the monitor (`chkEv` / `chkLate` in Monitor.lean), none in the model.  The old clauses and a witness
+for each are kept here. -/
+
+/-- The C04 clause as it was: only a caller inside the transport Write was exempt. -/
+def chkEctxOld (p o : Obs) (n : Nat) : Option Clause :=
+  if p.parked.contains (.wr (.call n)) then none
+  else if o.parked.contains (.r n) || (finCall o.fins n).isSome then none
+  else some (.c04CtxStuck n)
+
+/-- Witness `ecall; ectx c1`: the caller is still parked before its registration point C1 — it is
+not blocked on anybody — yet the old clause reported "cancelling the context did not make the call
+return".  Repair: a caller parked at ANY yield site (or inside the Write) is exempt; a caller that
+was blocked in Await must still be parked before its Retire, or finished, in the very next observation. -/
+theorem old_ctx_clause_false_alarm :
+    ∃ s s', run {} [.ecall] = some s ∧ step s (.ectx 1) = some s' ∧
+      chkEctxOld (obsOf s) (obsOf s') 1 = some (.c04CtxStuck 1) := by
+  refine ⟨_, _, rfl, rfl, ?_⟩
+  unfold chkEctxOld
+  rw [if_neg, if_neg]
+  · rw [Bool.or_eq_true, not_or, parked_contains_r, finCall_obsOf]
+    refine ⟨?_, ?_⟩
+    · rintro ⟨c, hc, hpc⟩
+      have : c.pc = .c1 := by
+        have h' : getCall _ 1 = some c := hc
+        simp [getCall_eq, settle, settleCalls, settleCall, settleWaiters, settleDisp, modCall] at h'
+        rw [← h']
+      rcases hpc with h | ⟨e, h⟩ <;> simp [this] at h
+    · decide
+  · rw [parked_contains_wr_call]
+    rintro ⟨c, hc, hpc⟩
+    have h' : getCall _ 1 = some c := hc
+    simp [getCall_eq, settle, settleCalls, settleCall, settleWaiters, settleDisp] at h'
+    rw [← h'] at hpc
+    simp at hpc
+
+/-- The C01 clause as it was: a call started after termination must end with `closed`, whatever
+happened to its context. -/
+def chkLateOld (m : Mon) (o : Obs) : Option Clause :=
+  m.startedLate.findSome? fun n =>
+    match finCall o.fins n with
+    | some r => if r = .closed then none else some (.c01Late n r)
+    | none => none
+
+theorem chkLateOld_fires (s : St) (m : Mon) (h : callFin s 1 = some .ctx) (hm : m.startedLate = [1]) :
+    chkLateOld m (obsOf s) = some (.c01Late 1 .ctx) := by
+  unfold chkLateOld
+  rw [hm]
+  simp [finCall_obsOf, h]
+
+/-- The schedule: Close, EOF, reader exit (the connection is done); then a call is started, its
+context is cancelled before it reaches C1, C1 refuses it, and the eager Retire returns `ctx.Err()`. -/
+def lateWitness : List Label := [.start, .eclose, .cl1, .read .eof, .rx, .ecall, .ectx 1, .c1 1, .retire 1]
+
+/-- Witness: on `lateWitness` the monitor has recorded call 1 as started after termination and the
+model (like Go's `select` in `Await`, which may pick either ready branch) lets it return its
+context's error; the old clause fired.  Repair: a late call whose context the harness cancelled may
+end with `ctx` as well as with `closed` (property text: "an error once the caller's context ends or
+the connection … is closed"). -/
+theorem old_late_clause_false_alarm :
+    ∃ s, run {} lateWitness = some s ∧ (monAfter {} (traceOf lateWitness)).startedLate = [1] ∧
+      chkLateOld (monAfter {} (traceOf lateWitness)) (obsOf s) = some (.c01Late 1 .ctx) :=
+  ⟨_, rfl, rfl, chkLateOld_fires _ _ rfl rfl⟩
+
+/-- … and the repaired monitor accepts both witnesses (instances of `monitor_accepts_model`). -/
+example : runMon (traceOf lateWitness) = none := monitor_accepts_model_trace _
+example : runMon (traceOf [.ecall, .ectx 1]) = none := monitor_accepts_model_trace _
 
 end Conn
